@@ -876,13 +876,22 @@ def run(tier, rep):
         'counted as "an attempt to set an attribute" (only setattr/delattr '
         'are demanded); snapshots that expose a plain writable __dict__ are '
         'counted in shortcut_hits as information',
-        'two-phase parts: only the snapshot taken AFTER the edit is '
-        'compared with the map; what an older snapshot shows once the map '
-        'has changed is not constrained by the statement and not checked; '
+        'two-phase parts: the snapshot taken AFTER the edit is compared in '
+        'full with the map.  For the snapshot taken BEFORE the edit the '
+        'statement ("read-only snapshot", "immutable", "mirror") does not '
+        'say whether it is frozen at creation or follows the map, so each '
+        'single answer (per path, per access form, absent names included) '
+        'may be either the answer it gave before the edit (same object) or '
+        'the answer of the map now (same resource / handle object, some '
+        'StaticResourceMap where the map has a sub-map, failure or None '
+        'from get where the map has nothing); anything else violates '
+        'old_snapshot_is_frozen_or_live.  Below a name that no longer '
+        'yields a sub-snapshot every name counts as absent',
         'one edit per case, applied to the edited map object itself '
         '(obtained by chained get() from the root), never through a '
-        'composite key on the root; edits that turn a handle into a '
-        'sub-map or a sub-map into a handle, and direct manipulation of '
+        'composite key on the root (the "deepen" edit uses the composite '
+        f'key name + "/{DEEPEN_CHILD}" on the edited map itself); edits that '
+        'turn a sub-map into a handle, and direct manipulation of '
         'handles.maps after the first snapshot, are outside the menu',
     ]
     rep.require_hits(non_identifier_name=1, keyword_name=1, dunder_name=1,
@@ -894,7 +903,12 @@ def run(tier, rep):
                      edit_add=1, edit_replace=1, edit_addmap=1, edit_clear=1,
                      edit_of_depth3_map=1, edit_replaces_layered_handle=1,
                      edit_clears_non_empty_map=1, edit_new_slotable_name=1,
-                     edit_new_unslotable_name=1)
+                     edit_new_unslotable_name=1,
+                     dunder_both_ends_name=1, edit_deepen=1, edit_mapover=1,
+                     edit_turns_handle_into_map=1,
+                     edit_turns_layered_handle_into_map=1,
+                     handle_name_left_handles=1, old_snapshot_reread=1,
+                     old_snapshot_reread_of_handle_turned_map=1)
     for part, (style, per_map, total) in parts(tier).items():
         cases = family(per_map, total, style)
         kernel.enumerate_cases(
@@ -911,6 +925,9 @@ def run(tier, rep):
                         nodes_per_map=per_map, nodes_total=total,
                         handle_kinds=list(HANDLE_KINDS),
                         edit_verbs=list(EDIT_VERBS),
+                        deepen_child=DEEPEN_CHILD,
+                        old_snapshot='re-read after the edit: every answer '
+                        'frozen or live',
                         edited_maps='the root and every sub-map',
                         bounds_apply_to='the tree before the edit'),
             chunk=max(200, len(cases) // 400))
